@@ -248,7 +248,7 @@ def gen_gate_case(rng, dist, big_portfolio=False):
 def pythify(rng, line):
     """a hops case as a risk case; some Fixed banks become Pyth banks with the same spot price. Fixed-price
     changes of such banks become rewrites of the Pyth account; after a clock advance the Pyth accounts are
-    usually re-published (else they go stale); bankruptcy (C07) is replaced by an accrue."""
+    usually re-published (else they go stale)."""
     c = H.parse_case(line)
     t = line.split()
     i = 6
@@ -268,9 +268,7 @@ def pythify(rng, line):
     cur = {k: max(1, c["banks"][k]["price"] * 10 ** 8 // ONE) for k in st}
     ops = []
     for o in c["ops"]:
-        if o[0] == 18:
-            ops.append([10, o[2]])
-        elif o[0] == 19 and o[1] in st:
+        if o[0] == 19 and o[1] in st:
             p = max(1, o[2] * 10 ** 8 // ONE)
             if p >= 1 << 62:
                 p = (1 << 62) - 1
@@ -408,8 +406,13 @@ def gen_liq_case(rng, dist):
     if feat == "over_liquidation":
         fams = [have + 2, have + 1, have, max(1, have - 1)]
     elif feat == "too_severe":
-        nsev = R.bisect_max(lambda n: (post_health(n) is not None and post_health(n) <= 0), max(1, have))
-        fams = family(max(1, nsev), rng, hi=max(1, have + 2))
+        nsev = max(1, R.bisect_max(lambda n: (post_health(n) is not None and post_health(n) <= 0), max(1, have)))
+        # fine and coarse steps: the predicted boundary is exact only up to the engine's rounding
+        fams = []
+        for v in (nsev + nsev // 1000 + 2, nsev + nsev // 10 ** 6 + 2, nsev + 2, nsev + 1, nsev, nsev - 1, nsev - 2,
+                  nsev - nsev // 10 ** 6 - 2, nsev - nsev // 1000 - 2):
+            if 1 <= v <= have + 2 and v not in fams:
+                fams.append(v)
     elif feat == "liquidator_boundary":
         def okl(n):
             if post_health(n) is None:
